@@ -60,6 +60,10 @@ CHECKS = {
          "Every public option constructor x argument class is an atom; all sequences of up to 3 atoms and random ones of 4-8, spelled flat / nested / via NewEncoder, NewDecoder and Reset, must give the GetOption vector (35 getters) of the last-wins model; equivalent spellings give identical Marshal/Unmarshal/Format/IsValid/coder results; options documented as ignored by an operation never change its result; options passed to MarshalEncode/UnmarshalDecode leave the coder's own GetOption vector and later behaviour unchanged after success, error and recovered user panic.",
          "trusted base: the option model in cmd/c19/model.go (from the documentation) and /verif/ref formatter",
          "DESIGN.md §4 C19"),
+ "C20": ("exploration", "process-level crash/hang monitor + ground-truth depth and cycle oracle: worker processes journal every case, any library panic (other than the closed list of documented misuse panics), fatal error or confirmed hang is a violation; depth towers 9998-10002 and splits through ~50 entry points must accept iff depth <= 10000; cyclic Go values must return an error",
+         "Depth towers in 4 container mixes (scalar/empty innermost, siblings, whitespace) through every path that reads, skips, validates, formats, writes tokens or raw values, marshals or unmarshals, including splits between token calls and one value call, must be accepted at 10000 and refused with an error at 10001; deep and cyclic Go values through 17 pointer-like kinds (cycles starting after 0/1/999/1000/1001 levels, pointer/interface-only cycles) must return an error and never exhaust the stack (each in its own child process); hostile byte strings, API-call scripts, misuse sequences and reuse of caller-held coders after failed calls run under a panic and hang monitor.",
+         "trusted base: the closed list of documented API-misuse panics (DESIGN.md §4 C20); the watchdog only flags non-termination after a solitary re-run, its first firing is inconclusive",
+         "DESIGN.md §4 C20"),
 }
 
 NOT_YET = {
@@ -68,7 +72,6 @@ NOT_YET = {
  "C10": "monitor built (cmd/c10) but two Token.Int/Uint alarms on the unchanged tree are being triaged; not claimed until then",
  "C15": "monitor built (cmd/c15); the diamond-embedding finding F6 and a v1 fold-order divergence are not yet recorded as known findings; not claimed until then",
  "C18": "monitor built (cmd/c18, race build) but too slow and not yet silent on the unchanged tree; not claimed until then",
- "C20": "monitor built (cmd/c20); the coder-reuse finding F15 is not yet triaged; not claimed until then",
 }
 
 def main():
